@@ -42,8 +42,9 @@ Call(ev) ==
       vCard == {V(ev, "cardinality", ev.obs[i].s, ev.obs[i].card) :
                   i \in {j \in DOMAIN ev.obs : ev.obs[j].card # Cardinality(ToSetB(ev.obs[j].ex))}}
       vPlanes == {V(ev, "plane-outside-existence", ev.obs[i].s, "") : i \in {j \in DOMAIN ev.obs : ~ev.obs[j].planesok}}
+      negX == "x" \in DOMAIN ev /\ \E c \in Cols : b[ev.x].v[c] < 0
       vRes == IF ~panicked /\ BHasResult(ev) /\ BClauses(b, ev, ev.ret) # {}
-              THEN {V(ev, "result", 0, BClauses(b, ev, ev.ret))} ELSE {}
+              THEN {V(ev, "result", 0, [clauses |-> BClauses(b, ev, ev.ret), neg |-> negX])} ELSE {}
   IN /\ b' = obs
      /\ Cols' = Cols
      /\ Record(vPanic \cup vMap \cup vRead \cup vCard \cup vPlanes \cup vRes)
